@@ -39,6 +39,14 @@ type verifC03Req struct {
 	Raw    string          `json:"raw"`
 	Sec    string          `json:"sec"`
 	Claims []verifC03Claim `json:"claims"`
+	Hdr    [][2]string     `json:"hdr"` // extra request headers (Origin, Access-Control-Request-Method, ...)
+}
+
+// verifC03Cors: the server is created with WithCors(Origins...) (Mode "cors") or with
+// WithCustomCors(fn, fn, Origins...) whose functions only add a marker header (Mode "custom").
+type verifC03Cors struct {
+	Mode    string   `json:"mode"`
+	Origins []string `json:"origins"`
 }
 
 func verifC03Token(secret string, cl []verifC03Claim) (string, error) {
@@ -87,6 +95,7 @@ type verifC03Case struct {
 	Slices [][]verifC03Route `json:"slices"`
 	Mounts []verifC03Mount   `json:"mounts"`
 	Reqs   []verifC03Req     `json:"reqs"`
+	Cors   *verifC03Cors     `json:"cors"` // only with Via == "server"
 }
 
 type verifC03Call struct {
@@ -152,7 +161,14 @@ func TestVerifDriverC03(t *testing.T) {
 		var srv *Server
 		if c.Via == "server" {
 			var err error
-			if srv, err = NewServer(conf); err != nil {
+			sopts := []Option{}
+			if c.Cors != nil && c.Cors.Mode == "custom" {
+				sopts = append(sopts, WithCustomCors(func(h http.Header) { h.Set("X-Verif-Cors", "mw") },
+					func(w http.ResponseWriter) { w.Header().Set("X-Verif-Cors", "na") }, c.Cors.Origins...))
+			} else if c.Cors != nil {
+				sopts = append(sopts, WithCors(c.Cors.Origins...))
+			}
+			if srv, err = NewServer(conf, sopts...); err != nil {
 				return map[string]any{"error": "NewServer: " + err.Error()}
 			}
 			ng, rt = srv.ng, srv.router
@@ -256,6 +272,9 @@ func TestVerifDriverC03(t *testing.T) {
 				}
 				r.Header.Set("Authorization", "Bearer "+tok)
 			}
+			for _, kv := range rq.Hdr {
+				r.Header.Add(kv[0], kv[1])
+			}
 			rec := httptest.NewRecorder()
 			status := 0
 			if panicked, _ := verifdrv.Catch(func() { rt.ServeHTTP(rec, r) }); !panicked {
@@ -267,6 +286,21 @@ func TestVerifDriverC03(t *testing.T) {
 				o.Vars = append(o.Vars, [2]string{k, hex.EncodeToString([]byte(v))})
 			}
 			sort.Slice(o.Vars, func(a, b int) bool { return o.Vars[a][0] < o.Vars[b][0] })
+			// CORS: was the (replaced) not-allowed handler the one that answered? WithCustomCors: its function
+			// marks the response; WithCors: cors.NotAllowedHandler adds the Vary: Origin header a second time
+			if c.Cors != nil && c.Cors.Mode == "custom" && rec.Header().Get("X-Verif-Cors") == "na" {
+				o.NF = 1
+			} else if c.Cors != nil && c.Cors.Mode != "custom" {
+				n := 0
+				for _, v := range rec.Header().Values("Vary") {
+					if v == "Origin" {
+						n++
+					}
+				}
+				if n >= 2 {
+					o.NF = 1
+				}
+			}
 			for _, h := range rec.Header().Values("Allow") {
 				o.Allow = append(o.Allow, strings.Split(h, ", ")...)
 			}
